@@ -27,6 +27,11 @@ type tcpClient struct {
 	c  net.Conn
 	rx []byte
 	id uint32
+	// after startReader: everything the server sends is consumed as it arrives (a well-behaved client reads what it
+	// is sent); replies are handed to request, everything else is counted and dropped
+	replies chan hlref.Tran
+	readErr chan error
+	dropped atomic.Int64
 }
 
 func dialFrom(src string, port int, timeout time.Duration) (net.Conn, error) {
@@ -35,7 +40,11 @@ func dialFrom(src string, port int, timeout time.Duration) (net.Conn, error) {
 }
 
 func (t *tcpClient) readTran(deadline time.Duration) (*hlref.Tran, error) {
-	t.c.SetReadDeadline(time.Now().Add(deadline))
+	if deadline > 0 {
+		t.c.SetReadDeadline(time.Now().Add(deadline))
+	} else {
+		t.c.SetReadDeadline(time.Time{})
+	}
 	buf := make([]byte, 65536)
 	for {
 		if tr, n, err := hlref.DecodeTran(t.rx); err == nil {
@@ -52,11 +61,46 @@ func (t *tcpClient) readTran(deadline time.Duration) (*hlref.Tran, error) {
 	}
 }
 
+func (t *tcpClient) startReader() {
+	t.replies = make(chan hlref.Tran, 64)
+	t.readErr = make(chan error, 1)
+	go func() {
+		for {
+			tr, err := t.readTran(0)
+			if err != nil {
+				t.readErr <- err
+				return
+			}
+			if tr.IsReply == 1 {
+				t.replies <- *tr
+			} else {
+				t.dropped.Add(1)
+			}
+		}
+	}()
+}
+
 func (t *tcpClient) request(typ int, deadline time.Duration, fs ...hlref.Field) (*hlref.Tran, error) {
 	t.id++
 	id := t.id
 	if _, err := t.c.Write(hlref.Tran{Type: typ, ID: id, Fields: fs}.Encode()); err != nil {
 		return nil, err
+	}
+	if t.replies != nil {
+		timeout := time.After(deadline)
+		for {
+			select {
+			case tr := <-t.replies:
+				if tr.ID == id {
+					return &tr, nil
+				}
+			case err := <-t.readErr:
+				t.readErr <- err
+				return nil, err
+			case <-timeout:
+				return nil, fmt.Errorf("no reply to request %d (type %d) within %s", id, typ, deadline)
+			}
+		}
 	}
 	for {
 		tr, err := t.readTran(deadline)
@@ -220,7 +264,11 @@ func TestC03Net(t *testing.T) {
 	for i := 0; i < nconn; i++ {
 		var p plan
 		p.src = fmt.Sprintf("127.%d.%d.%d", 10+i/60000, (i/250)%240+1, i%250+3)
-		switch next(6) {
+		switch next(7) {
+		case 6:
+			// the 1.5 flow cut short: logged in, never agreed, gone
+			p.kind = "login15-never-agreed"
+			p.bytes = append(hlref.Handshake(1, 2), hlref.Tran{Type: hlref.TranLogin, ID: 1, Fields: hlsim.LoginOpts{Login: "hostile", Password: "hpw", Version: hlref.BE16(190)}.Fields()}.Encode()...)
 		case 0:
 			p.kind, p.bytes = "handshake-only", hlref.Handshake(1, 2)
 		case 1:
@@ -256,73 +304,81 @@ func TestC03Net(t *testing.T) {
 		}
 		plans = append(plans, p)
 	}
-	var wg sync.WaitGroup
-	sem := make(chan struct{}, 200)
-	var connected, refused atomic.Int64
-	kinds := map[string]int{}
-	for _, p := range plans {
-		kinds[p.kind]++
-		wg.Add(1)
-		sem <- struct{}{}
-		go func(p plan) {
-			defer wg.Done()
-			defer func() { <-sem }()
-			c, err := dialFrom(p.src, port, 3*time.Second)
-			if err != nil {
-				refused.Add(1)
-				return
-			}
-			connected.Add(1)
-			if len(p.bytes) > 0 {
-				c.Write(p.bytes)
-				c.SetReadDeadline(time.Now().Add(150 * time.Millisecond))
-				buf := make([]byte, 4096)
-				c.Read(buf)
-			}
-			c.Close()
-		}(p)
-	}
-	wg.Wait()
-	// ---- oracle
-	if !alive() && strings.Contains(childLog(), "address already in use") {
-		t.Fatalf("VERIF-INCONCLUSIVE the child could not bind its ports (taken by another process)")
-	}
-	if !alive() {
-		t.Fatalf("VERIF-VIOLATION C03 the server process terminated while %d connections from distinct addresses were being served (%d connected):\n%s", nconn, connected.Load(), childLog())
-	}
-	r, err := sentinel.request(hlref.TranKeepAlive, 30*time.Second)
-	if err != nil || r.Err != 0 {
-		if !alive() {
-			t.Fatalf("VERIF-VIOLATION C03 the server process terminated:\n%s", childLog())
-		}
-		t.Fatalf("VERIF-INCONCLUSIVE the sentinel got no keep-alive reply within 30 s after the storm (%v); server still running", err)
-	}
+	sentinel.startReader()
 	// "all its resources released": the user list must converge to the one well-behaved client.  No wall-clock
 	// allowance decides: a count that is still falling is slowness (busy machine), a count that stays above one
 	// for 60 s while the server answers is a leak; 5 minutes without convergence is inconclusive.
-	last, lastChange, start := -1, time.Now(), time.Now()
-	for {
-		r, err = sentinel.request(hlref.TranGetUserNameList, 30*time.Second)
-		if err != nil {
-			if !alive() {
-				t.Fatalf("VERIF-VIOLATION C03 the server process terminated:\n%s", childLog())
+	converge := func(after string) {
+		last, lastChange, start := -1, time.Now(), time.Now()
+		for {
+			r, err := sentinel.request(hlref.TranGetUserNameList, 60*time.Second)
+			if err != nil {
+				if !alive() {
+					t.Fatalf("VERIF-VIOLATION C03 the server process terminated (%s):\n%s", after, childLog())
+				}
+				t.Fatalf("VERIF-INCONCLUSIVE %s: the well-behaved client got no user list within 60 s: %v", after, err)
 			}
-			t.Fatalf("VERIF-INCONCLUSIVE no user list within 30 s: %v", err)
+			n := len(r.GetAll(hlref.FUsernameWithInfo))
+			if n == 1 {
+				return
+			}
+			if n != last {
+				last, lastChange = n, time.Now()
+			}
+			if time.Since(lastChange) > 60*time.Second {
+				t.Fatalf("VERIF-VIOLATION C03 %s and closed, the user list stays at %d entries for 60 s instead of the one well-behaved client", after, n)
+			}
+			if time.Since(start) > 5*time.Minute {
+				t.Fatalf("VERIF-INCONCLUSIVE %s: the user list did not converge within 5 minutes (still %d entries, still changing)", after, n)
+			}
+			time.Sleep(300 * time.Millisecond)
 		}
-		n := len(r.GetAll(hlref.FUsernameWithInfo))
-		if n == 1 {
-			break
+	}
+	var connected, refused atomic.Int64
+	kinds := map[string]int{}
+	// the storm comes in batches of 500 connections, 100 at a time; after each batch the harness waits until the server
+	// has caught up (closed loop: on a busy machine the batches are simply further apart)
+	const batch = 500
+	for lo := 0; lo < len(plans); lo += batch {
+		hi := min(lo+batch, len(plans))
+		var wg sync.WaitGroup
+		sem := make(chan struct{}, 100)
+		for _, p := range plans[lo:hi] {
+			kinds[p.kind]++
+			wg.Add(1)
+			sem <- struct{}{}
+			go func(p plan) {
+				defer wg.Done()
+				defer func() { <-sem }()
+				c, err := dialFrom(p.src, port, 3*time.Second)
+				if err != nil {
+					refused.Add(1)
+					return
+				}
+				connected.Add(1)
+				if len(p.bytes) > 0 {
+					c.Write(p.bytes)
+					c.SetReadDeadline(time.Now().Add(150 * time.Millisecond))
+					buf := make([]byte, 4096)
+					c.Read(buf)
+				}
+				c.Close()
+			}(p)
 		}
-		if n != last {
-			last, lastChange = n, time.Now()
+		wg.Wait()
+		if !alive() && strings.Contains(childLog(), "address already in use") {
+			t.Fatalf("VERIF-INCONCLUSIVE the child could not bind its ports (taken by another process)")
 		}
-		if time.Since(lastChange) > 60*time.Second {
-			t.Fatalf("VERIF-VIOLATION C03 after %d hostile connections were closed the user list stays at %d entries for 60 s instead of the one well-behaved client", nconn, n)
+		if !alive() {
+			t.Fatalf("VERIF-VIOLATION C03 the server process terminated while connections %d-%d from distinct addresses were being served (%d connected):\n%s", lo, hi, connected.Load(), childLog())
 		}
-		if time.Since(start) > 5*time.Minute {
-			t.Fatalf("VERIF-INCONCLUSIVE the user list did not converge within 5 minutes (still %d entries, still changing)", n)
+		converge(fmt.Sprintf("after hostile connections %d-%d were made", lo, hi))
+	}
+	if r, err := sentinel.request(hlref.TranKeepAlive, 60*time.Second); err != nil || r.Err != 0 {
+		if !alive() {
+			t.Fatalf("VERIF-VIOLATION C03 the server process terminated:\n%s", childLog())
 		}
-		time.Sleep(500 * time.Millisecond)
+		t.Fatalf("VERIF-INCONCLUSIVE the sentinel got no keep-alive reply within 60 s after the storm (%v); server still running", err)
 	}
 	if !alive() {
 		t.Fatalf("VERIF-VIOLATION C03 the server process terminated:\n%s", childLog())
